@@ -165,7 +165,7 @@ def main():
             print(r.err.decode("latin1")[-3000:])
             return 1 if (r.crashed or r.timeout) else 0
         quick = cr.quick
-        fns = baseimgs.ALL[:4] if quick else baseimgs.ALL
+        fns = baseimgs.ALL[:5] if quick else baseimgs.ALL
         for fn in fns:
             name, root, kw = fn()
             img, fields = mkimg.build(root, **kw)
@@ -202,6 +202,9 @@ def main():
             fl = sorted(fields)
             if bname.startswith("b3") and quick:
                 continue
+            if bname.startswith("b5") and quick:
+                # quick: the symlink inodes and the directory entries' name fields
+                fl = [f for f in fl if f.split(".")[0] in ("l099", "l100", "l101", "l300", "l400") or f.endswith(".name_size")]
             if bname.startswith("b4") and quick:
                 # quick: the inode of the indexed directory, its index entries and listing headers (everything else is covered by b1/b2)
                 fl = [f for f in fl if f.startswith("idx.") and ".ent" not in f]
@@ -217,6 +220,24 @@ def main():
                 for v in vals:
                     jobs.append((bname, "field", "%s=%#x (was %#x)" % (fname, v, orig), mkimg.set_field(img, fields, fname, v), cr.tier))
                     counts["field"] = counts.get("field", 0) + 1
+        # NUL bytes inside symlink targets (the C string ends earlier than the stored length says), alone and together with a larger stored length
+        if "b5-long-symlink-targets-and-names" in BASE:
+            img5, f5, _, _ = BASE["b5-long-symlink-targets-and-names"]
+            for tag in ("l099", "l100", "l101", "l300", "l400"):
+                o, w = f5[tag + ".target_size"]
+                tlen = int.from_bytes(img5[o:o + w], "little")
+                for j in (0, 1, 50, 98, 99, 100, tlen - 1):
+                    if j >= tlen:
+                        continue
+                    d = bytearray(img5)
+                    d[o + w + j] = 0
+                    jobs.append(("b5-long-symlink-targets-and-names", "field", "%s target byte %d = NUL" % (tag, j), bytes(d), cr.tier))
+                    counts["field"] = counts.get("field", 0) + 1
+                    for ts in (tlen + 200, tlen + 1000):
+                        d2 = bytearray(d)
+                        d2[o:o + w] = ts.to_bytes(w, "little")
+                        jobs.append(("b5-long-symlink-targets-and-names", "pair", "%s target byte %d = NUL, target_size=%d" % (tag, j, ts), bytes(d2), cr.tier))
+                        counts["pair"] = counts.get("pair", 0) + 1
         # deviation 2: pairs of fields on the smallest image (inode + superblock fields), reduced alphabet
         b0img, b0f, _, _ = BASE["b0-minimal"]
         small_vals = lambda o, w: [v for v in (0, (1 << (8 * w)) - 1, o + 1, 0x8000, 1 << 24) if v != o]
